@@ -1,10 +1,67 @@
 import Ldap3V.Driver.Util
+import Ldap3V.Driver.Envelope
+import Ldap3V.Model.Result
 namespace Ldap3V.Driver
 open Ldap3V
+
+def showOptHex : Option Bytes → String
+  | some v => hexOf v
+  | none => "none"
+
+def showResultExt : Option ResultExt → String
+  | none => "none"
+  | some r =>
+    s!"ok rc={r.rc} matched={hexOf r.matched} text={hexOf r.text} refs=[{",".intercalate (r.refs.map hexOf)}] " ++
+    s!"exop={showOptHex r.exopName}/{showOptHex r.exopVal} sasl={showOptHex r.sasl}"
+
+def showVerdict : Except Unit Unit → String
+  | .ok _ => "ok"
+  | .error _ => "err"
+
+def showEqual : Except Unit Bool → String
+  | .ok true => "true"
+  | .ok false => "false"
+  | .error _ => "err"
+
+def showHelpers (rc : Nat) : String :=
+  s!"success={showVerdict (success rc)} non_error={showVerdict (nonError rc)} equal={showEqual (equal rc)} " ++
+  s!"cmp_non_error={showVerdict (cmpNonError rc)} " ++
+  s!"search={showVerdict (searchSuccess rc)}/{showVerdict (searchNonError rc)} " ++
+  s!"exop={showVerdict (exopSuccess rc)}/{showVerdict (exopNonError rc)}"
+
+/-- decode one frame from the buffer, then the tail of `op_call` -/
+def showE2E (bs : Bytes) : String :=
+  match decodeInner bs with
+  | .needMore => "needmore"
+  | .decodeError => "error"
+  | .frame id op cs n =>
+    match opCallResult op cs with
+    | none => s!"frame {id} consumed={n} panic"
+    | some (r, (en, ev), sasl) =>
+      s!"frame {id} consumed={n} " ++
+      showResultExt (some ⟨r.rc, r.matched, r.text, r.refs, en, ev, sasl⟩) ++ s!" ctrls={showCtrls r.ctrls}"
 
 /-- line-protocol handler for the `Results` family of commands; `none` = not mine -/
 def handleResults (cmd arg : String) : Option String :=
   match cmd with
+  | "res.ext" => some (
+      if arg == "null" then showResultExt (resultExtOfTag (.null 0 5))
+      else if arg == "other" then showResultExt (resultExtOfTag (.integer 0 2 0))
+      else match parseTlv arg with
+        | some t => showResultExt (resultExtOfTag (.structure t))
+        | none => "bad-request")
+  -- `LdapResult::from(tag)`: `none` of the model is the `expect("ldap result")` panic
+  | "res.from" => some (match parseTlv arg with
+      | some t => (match resultExt t with
+        | none => "panic"
+        | some r => s!"ok rc={r.rc} matched={hexOf r.matched} text={hexOf r.text} refs=[{",".intercalate (r.refs.map hexOf)}]")
+      | none => "bad-request")
+  | "res.helpers" => some (match arg.toNat? with
+      | some rc => showHelpers rc
+      | none => "bad-request")
+  | "res.e2e" => some (match unhex arg with
+      | some bs => showE2E bs
+      | none => "bad-request")
   | _ => none
 
 end Ldap3V.Driver
